@@ -78,13 +78,23 @@ for _k in list(NEAR) + list(WHITEBOX):
 SPLITS = ['bytes', 'one', 'crlf', 'cuts']
 
 
-def _client(unix, log):
+def _pref(case):
+    """The client's preference list for this case: the default, or a configured one (any order, any subset)."""
+    p = case.get('pref')
+    return [x.encode() for x in p] if p else list(PREF)
+
+
+def _client(unix, log, pref=None):
     import txdbus.protocol as P
     from txdbus import authentication as AU
+    auth_cls = AU.ClientAuthenticator
+    if pref is not None and list(pref) != list(PREF):
+        # the documented way to configure the mechanisms: a subclass with its own preference list
+        auth_cls = type('PrefClientAuthenticator', (AU.ClientAuthenticator,), {'preference': list(pref)})
 
     class Cli(P.BasicDBusProtocol):
         _client = True
-        authenticator = AU.ClientAuthenticator
+        authenticator = auth_cls
 
         def connectionAuthenticated(self):
             log['authed'] += 1
@@ -104,6 +114,7 @@ def _eval_history(case, first_out, history):
     """history: list of (letter, client_lines, closed, authed_now, leftover)."""
     out = []
     unix = case['unix']
+    PREF = _pref(case)      # (shadows the default list: every rule below speaks about THIS client's preference)
     auths = []
     lines0, left0 = first_out
     if not first_out[0] and left0 == b'':
@@ -195,7 +206,7 @@ def _eval_history(case, first_out, history):
 
 def _canonical(case):
     log = {'authed': 0}
-    c = _client(case['unix'], log)
+    c = _client(case['unix'], log, _pref(case))
     first = _out_lines(c.transport.take())
     history = []
     for letter in case['seq']:
@@ -211,7 +222,7 @@ def _canonical(case):
 
 def _split_run(case, nlines):
     log = {'authed': 0}
-    c = _client(case['unix'], log)
+    c = _client(case['unix'], log, _pref(case))
     first = c.transport.take()
     data = b''.join(LETTERS[x] + b'\r\n' for x in case['seq'][:nlines])
     mode = case['split']
@@ -391,7 +402,7 @@ def run_handshake(case):
     out = []
     try:
         log = {'authed': 0}
-        c = _client(case['unix'], log)
+        c = _client(case['unix'], log, _pref(case))
         srv = RefServer(case['accept'], case['neg'].encode(), os.path.join(scratch, '.dbus-keyrings'),
                         case['nonce'].encode(), case['external'], case.get('cookie', 'ok'))
         pending = c.transport.take().lstrip(b'\0')
@@ -451,6 +462,19 @@ def run_handshake(case):
     return out
 
 
+def enum_preferences(tier):
+    """Every ordered selection of 1-3 mechanisms as the client's preference list, against servers that reject
+    everything, accept late, or answer ERROR in between."""
+    names = ['EXTERNAL', 'DBUS_COOKIE_SHA1', 'ANONYMOUS']
+    i = 0
+    for r in (1, 2, 3):
+        for pref in itertools.permutations(names, r):
+            for seq in (['RJ', 'RJ', 'RJ', 'RJ'], ['RJ', 'ER', 'RJ'], ['ER', 'RJ', 'OKh'], ['RJ', 'OKh'], ['OKh']):
+                for unix in (False, True):
+                    yield {'seq': seq, 'unix': unix, 'split': SPLITS[i % 3], 'pref': list(pref)}
+                    i += 1
+
+
 def enum_near(tier):
     i = 0
     for x in sorted(NEAR) + sorted(WHITEBOX):
@@ -488,6 +512,9 @@ SUBCHECKS = [
                              '{UNIX, non-UNIX} transport'),
     Subcheck('lines_random', run_lines, classify_lines, strategy=lambda tier: random_lines(tier),
              n={'quick': 300, 'thorough': 3000}),
+    Subcheck('preferences', run_lines, classify_lines, enumerate=enum_preferences, shards={'quick': 2, 'thorough': 2},
+             exhaustive_note='all 15 ordered selections of 1-3 mechanisms as the configured preference list x 5 server '
+                             'behaviours x 2 transport kinds'),
     Subcheck('lines_near', run_lines, classify_lines, enumerate=enum_near, shards={'quick': 4, 'thorough': 4},
              exhaustive_note='10 near-commands (foreign bytes inside a command word, glued suffixes, client-side words) and '
                              'every non-protocol word the authenticators would dispatch on by name x 5 prefixes x 3 '
